@@ -27,8 +27,12 @@ Inductive expect := XRaise | XOk (dumped : json) (unstructured : option json).
 Record case := { c_ty : pty; c_in : json; c_exp : expect; c_mm : option ty (* certify validity first *) }.
 
 Definition FUEL := 60.
+(* module-level alias objects keep unresolved forward references: the typing judgement does not apply to them *)
+Fixpoint has_fwd (t : pty) : bool :=
+  match t with
+  | PyFwd _ => true | PyUnion l | PyTuple l => existsb has_fwd l | PySeq t => has_fwd t | PyDict k v => has_fwd k || has_fwd v | _ => false end.
 (* 0 = agreement; 1 = ok/raise differs; 2 = object graph differs; 3 = unstructured JSON differs; 4 = input claimed valid is not;
-   5 = model ran out of fuel; 6 = (valid input) the model's result is not well-typed at the requested type (Denote.typed_b);
+   5 = model ran out of fuel; 6 = (valid input, type without unresolved forward references) the model's result is not well-typed at the requested type (Denote.typed_b);
    7 = (valid input) the model's unstructured JSON is not the denotation of its result *)
 Definition judge (mm : MM) (Sg : sigma) (pystr : json -> string) (c : case) : nat :=
   if match c_mm c with Some t => negb (valid_b mm FUEL t (c_in c)) | None => false end then 4 else
@@ -39,7 +43,7 @@ Definition judge (mm : MM) (Sg : sigma) (pystr : json -> string) (c : case) : na
   | Ok _, XRaise => 1
   | Ok o, XOk d u =>
       if negb (jeqb (canon (dump o)) d) then 2 else
-      if match c_mm c with Some _ => negb (typed_b Sg FUEL (c_ty c) o) | None => false end then 6 else
+      if match c_mm c with Some _ => negb (has_fwd (c_ty c)) && negb (typed_b Sg FUEL (c_ty c) o) | None => false end then 6 else
       match unstr Sg FUEL (Some (c_ty c)) o, u with
       | Fuel, _ => 5
       | Err _, None => 0
